@@ -344,8 +344,63 @@ class Paths:
         self._ctors[path] = res
         return res
 
+    def _compose(self, t, env):
+        """`mut(before, call, sub)` = the value of a place after `call`; when the call was inlined its write effects are
+        known: rebuild the value as the place before the call with those writes applied in order (update nodes, and mut
+        nodes for the opaque mutating calls the callee made itself)"""
+        hist = lambda x: subst(x, lambda n: n[1] if n[0] in ("update", "mut") else None)
+
+        def rel(base, lv):
+            path = []
+            while lv != base:
+                if lv[0] == "field" and isinstance(lv[2], int):
+                    path.append(("f", lv[2]))
+                    lv = lv[1]
+                elif lv[0] in ("deref", "ref"):
+                    lv = lv[1]
+                else:
+                    return None
+            return tuple(reversed(path))
+
+        def comp(n):
+            if not isinstance(n, tuple) or not n:
+                return n
+            if not isinstance(n[0], str):
+                return tuple(comp(x) if isinstance(x, tuple) else x for x in n)
+            wk = None
+            if n[0] == "mut" and len(n) >= 4 and isinstance(n[2], tuple) and n[2] and n[2][0] == "call":
+                if ("writes", n[2]) in env:
+                    wk = ("writes", n[2])
+                else:
+                    # the key under which the call was recorded has its arguments composed and expanded
+                    k2 = n[2][:3] + (tuple(subst(comp(a), lambda m: env.get(m)) for a in n[2][3]),) + tuple(n[2][4:])
+                    if ("writes", k2) in env:
+                        wk = ("writes", k2)
+            if wk is not None:
+                before = comp(n[1])
+                base = hist(before)
+                while base[0] in ("ref", "deref"):
+                    base = base[1]
+                after = before
+                for ef in env[wk]:
+                    if ef[0] == "write":
+                        r_ = rel(base, hist(ef[1]))
+                        if r_ is None:
+                            continue            # a write to some other object
+                        after = ef[2] if r_ == () else ("update", after, r_, ef[2])
+                    elif ef[0] == "call" and ef[1][0] == "call" and ef[1][3]:
+                        r_ = rel(base, hist(ef[1][3][0]))
+                        if r_ is not None:
+                            after = ("mut", after, ef[1], r_)
+                return after
+            return tuple([n[0]] + [comp(x) if isinstance(x, tuple) else x for x in n[1:]])
+        return comp(t)
+
     def _val(self, st, t):
         env = st.env
+        if env and any(isinstance(k, tuple) and k and k[0] == "writes" for k in env):
+            t = self._compose(t, env)
+            t = subst(t, lambda n: None)   # re-simplify field-of-update / field-of-mut
         t = subst(t, lambda n: env.get(n) if env else None)
         if env and any(isinstance(k, tuple) and k and k[0] == "unit" for k in env):
             t = _unit_calls(t, env)
@@ -470,6 +525,10 @@ class Paths:
             s2.effects += effects
             if val is not None:
                 s2.env[key] = val
+            if effects and any(ef[0] == "write" for ef in effects):
+                # an inlined callee that writes through its `&mut` arguments: later reads of those places (`mut` nodes
+                # "value after this call") are composed from these writes, see _compose
+                s2.env[("writes", key)] = list(effects)
             out.append(s2)
         return out
 
@@ -478,7 +537,8 @@ class Paths:
         which later trees contain it)"""
         env = st.env
         # always rebuilt: subst re-sorts commutative operands, and later trees are looked up in their rebuilt form
-        args = tuple(subst(a, lambda n: env.get(n)) for a in node[3])
+        comp = (lambda a: self._compose(a, env)) if any(isinstance(k, tuple) and k and k[0] == "writes" for k in env) else (lambda a: a)
+        args = tuple(subst(comp(a), lambda n: env.get(n)) for a in node[3])
         return node[:3] + (args,) + node[4:]
 
     def _split(self, x, kind):
@@ -578,16 +638,39 @@ class Paths:
                 return n[:4] + (n[4] + inst,)
             return None
         f = lambda t: _simplify(self.canon.tree(_norm_calls(subst(t, r))), self._ctor_map)
+        # the target of a write is a place: what the callee's parameter stands for there is the caller's place, not
+        # the value it currently holds (no update / mut history)
+        place = lambda t: subst(f(t), lambda n: n[1] if n[0] in ("update", "mut") else None)
         facts = []
         for x in s.facts:
             facts.append(tuple(f(y) if _is_tree(y) else y for y in x))
-        effects = [tuple(f(y) if _is_tree(y) else y for y in x) for x in s.effects]
+        effects = []
+        for x in s.effects:
+            if x[0] == "write" and len(x) == 3:
+                effects.append(("write", self._lvalue_place(x[1], r, f), f(x[2])))
+            else:
+                effects.append(tuple(f(y) if _is_tree(y) else y for y in x))
         return (facts, effects, f(s.ret))
+
+    def _lvalue_place(self, lv, r, f):
+        """rebind a callee lvalue into the caller: parameters are replaced by the caller's *places*"""
+        strip = lambda t: subst(t, lambda n: n[1] if n[0] in ("update", "mut") else None)
+
+        def r_place(n):
+            v = r(n)
+            if v is not None and n[0] == "param":
+                v = strip(v)
+                # a composed value (update applied) is not a place: fall back to the innermost place it was built over
+                while v[0] == "update":
+                    v = v[1]
+            return v
+        out = subst(lv, r_place)
+        return _simplify(self.canon.tree(_norm_calls(out)), self._ctor_map)
 
     def _model(self, st, key, path, name, args, depth, rty):
         """cases [(facts, effects, value)] of a call, or None: leave the call as it is"""
         A = lambda i: self._val(st, args[i])
-        raw = lambda i: subst(args[i], lambda n: st.env.get(n)) if st.env else args[i]
+        raw = lambda i: subst(self._compose(args[i], st.env) if any(isinstance(k, tuple) and k and k[0] == "writes" for k in st.env) else args[i], lambda n: st.env.get(n)) if st.env else args[i]
         is_opt = path.startswith(OPT + "::")
         is_res = path.startswith(RES + "::")
         if is_opt or is_res:
